@@ -242,6 +242,20 @@ def correspondence(ctx):
         if "HANG" in str(f.get("what", "")) + str(f.get("detail", ""))[:3000] and dumps:
             f["detail"] = str(f.get("detail", "")) + "\n--- goroutines at watchdog expiry (first and repeat run) ---\n" + \
                 "\n=====\n".join(f"{d[0]}\nsignature: {d[1]}\n{d[2]}" for d in dumps[:4])
+    # one failure per distinct statement (first = witness), with the number of occurrences
+    uniq = {}
+    for f in failures:
+        k = (f.get("layer"), f.get("what"))
+        if k in uniq:
+            uniq[k]["_n"] += 1
+        else:
+            f["_n"] = 1
+            uniq[k] = f
+    failures = list(uniq.values())
+    for f in failures:
+        n = f.pop("_n")
+        if n > 1:
+            f["detail"] = f"({n} cases with this failure; first one shown) " + str(f.get("detail", ""))
     for f in failures:
         f["what"] = calm(str(f.get("what", "")))
         f["detail"] = calm(str(f.get("detail", "")))
